@@ -103,7 +103,9 @@ func cornerValue(key string, old interface{}, g *rng.R) interface{} {
 	case "controller":
 		return nil
 	case "name", "namespace":
-		return rng.Pick(g, []interface{}{"", "UPPER_case!", strings.Repeat("x", 300), 7})
+		// besides malformed names: the names the tool gives to its own synthetic objects (the ingress-controller pod and its namespace, the
+		// representative pods of exposure analysis) are valid names a user may have chosen too
+		return rng.Pick(g, []interface{}{"", "UPPER_case!", strings.Repeat("x", 300), 7, "ingress-controller-ns", "ingress-controller-ns", "ingress-controller", "representative-pod"})
 	}
 	switch old.(type) {
 	case string:
@@ -372,7 +374,30 @@ func runC12(c *run.Ctx) {
 			docs = w.Docs()
 		}
 		ds := []string{}
-		for n := g.Range(2, 4); n > 0; n-- {
+		if g.P(0.25) {
+			// valid documents that use the names the tool gives to its own synthetic objects: a policy living in (and selecting the
+			// pods of) the synthetic ingress-controller namespace, a real pod named like the synthetic one, a workload named like
+			// the representative pods of exposure analysis
+			icns := world.NetPol{Ns: "ingress-controller-ns", Name: "in-synthetic-ns", PodSel: world.Sel{},
+				Ingress: []world.NPRule{{Peers: []world.NPPeer{{NsSel: &world.Sel{}}}, Ports: []world.NPPort{{Port: 80}}}},
+				Egress:  []world.NPRule{{Peers: []world.NPPeer{{NsSel: &world.Sel{}}}, Ports: []world.NPPort{{Port: 8080}}}, {Peers: []world.NPPeer{{PodSel: &world.Sel{ML: map[string]string{"app": "nobody"}}}}}}}
+			if g.P(0.7) {
+				docs = append(docs, world.NetPolDoc(&icns))
+				ds = append(ds, "NetworkPolicy in ingress-controller-ns")
+			}
+			if g.P(0.4) {
+				pod := world.Workload{Ns: "ingress-controller-ns", Name: "ingress-controller", Kind: world.KPod, Labels: map[string]string{"app": "a"}, Ports: []world.CPort{{Num: 80}}}
+				docs = append(docs, world.WorkloadDocs(&pod)...)
+				ds = append(ds, "Pod ingress-controller-ns/ingress-controller")
+			}
+			if g.P(0.4) {
+				rep := world.Workload{Ns: "ns1", Name: "representative-pod", Kind: rng.Pick(g, []string{world.KPod, world.KDeployment}), Labels: map[string]string{"app": "b"}}
+				docs = append(docs, world.WorkloadDocs(&rep)...)
+				ds = append(ds, "workload named representative-pod")
+			}
+			r.Ev("inputs_using_the_tools_synthetic_names", 1)
+		}
+		for n := g.Range(0, 3); n > 0; n-- {
 			di := g.Intn(len(docs))
 			var tree interface{}
 			if yaml.Unmarshal([]byte(docs[di].YAML), &tree) != nil {
